@@ -137,7 +137,7 @@ def build_v2(spec):
     if any(r["kind"] == "shipped" for r in outs):
         co.append("import nemoguardrails.library.self_check.output_check")
     co.append("")
-    co.append("flow main\n  activate conversation\n" + ("  activate tracker\n" if spec.get("tracker") else ""))
+    co.append("flow main\n  activate conversation\n" + ("  activate tracker\n  activate groupwatch\n" if spec.get("tracker") else ""))
     if spec.get("tracker"):
         co.append(V2_TRACKER)
     mode = spec.get("mode", "rails_only")
@@ -175,6 +175,16 @@ flow tracker
     $topics = $topics + find_all($pat, $ev.final_transcript)
     if $n == 1 or $n == 3
       await UtteranceBotAction(script="TRK {$n} {$topics} {len($marks)} {$nest} first={$first.final_transcript} re={search($pat, $ev.final_transcript)}")
+
+@loop("groupwatch")
+flow groupwatch
+  $g = 0
+  while True
+    # the turn boundary (state saved / restored / aged) falls while this flow waits inside a group, with forked heads
+    match UtteranceUserActionFinished(final_transcript=regex("topic 1")) or UtteranceUserActionFinished(final_transcript=regex("topic 2"))
+    $g = $g + 1
+    match UtteranceUserActionFinished(final_transcript=regex("topic [01]")) and UtteranceUserActionFinished(final_transcript=regex("topic [12]"))
+    await UtteranceBotAction(script="GW {$g} after the groups")
 '''
 
 
